@@ -43,6 +43,10 @@ def cases(tier, seed):
             "gtol": 1e-8,
             "cb": "never",
         }
+        if i % 13 == 12:
+            # scale: dimensions and memories larger than the bulk of the cases
+            ps["n"] = int(rng.integers(25, 61))
+            cfg["maxcor"] = int(rng.integers(11, 31))
         if not chain and rng.random() < 0.35:
             cfg["scaler"] = float(np.exp(rng.uniform(np.log(1e-3), np.log(1e3))))
         if i % 25 == 11 and not chain:
